@@ -544,3 +544,93 @@ def detector_arrays(arrays):
         for k, v in st.items():
             out[f"{dn}/{k}"] = np.asarray(v)
     return out
+
+
+# --------------------------------------------------------------------------------------------
+# description-level transformations
+# --------------------------------------------------------------------------------------------
+def _rot_list(v):
+    """per-axis list under the relabelling x->y, y->z, z->x: new[(a+1)%3] = old[a]"""
+    return [v[2], v[0], v[1]]
+
+
+def _rot_tensor(t):
+    """material value (scalar | 3 | 9 row-major) under the same relabelling"""
+    if not isinstance(t, (list, tuple)):
+        return t
+    if len(t) == 3:
+        return _rot_list(list(t))
+    if len(t) == 9:
+        old = [[t[3 * i + j] for j in range(3)] for i in range(3)]
+        new = [[0.0] * 3 for _ in range(3)]
+        for i in range(3):
+            for j in range(3):
+                new[(i + 1) % 3][(j + 1) % 3] = old[i][j]
+        return [new[i][j] for i in range(3) for j in range(3)]
+    raise ValueError(t)
+
+
+def _rot_mat(m):
+    return {k: (_rot_tensor(v) if k in ("eps", "mu", "sig_e", "sig_m") else v) for k, v in (m or {}).items()}
+
+
+def rotate_scene(scene):
+    """Relabel the axes cyclically (x->y, y->z, z->x) in the whole description."""
+    s = copy.deepcopy(scene)
+    s["shape"] = _rot_list(scene["shape"])
+    g = scene["grid"]
+    if g["kind"] == "rect":
+        s["grid"] = {"kind": "rect", "edges": _rot_list(g["edges"])}
+    elif g["kind"] == "quasi":
+        s["grid"] = {"kind": "quasi", "d": _rot_list(g["d"])}
+    names = "xyz"
+    faces = {}
+    for f, spec in scene["faces"].items():
+        side, ax = f.split("_")
+        faces[f"{side}_{names[(AX[ax] + 1) % 3]}"] = copy.deepcopy(spec)
+    s["faces"] = faces
+    s["bloch"] = _rot_list(list(scene.get("bloch", [0, 0, 0])))
+    s["volume"] = _rot_mat(scene.get("volume"))
+    s["symmetry"] = _rot_list(list(scene.get("symmetry", [0, 0, 0])))
+    for key in ("materials", "sources", "detectors", "devices"):
+        out = []
+        for o in scene.get(key, []):
+            o = copy.deepcopy(o)
+            for kk in ("lo", "hi"):
+                if kk in o:
+                    o[kk] = _rot_list(o[kk])
+            if "mat" in o:
+                o["mat"] = _rot_mat(o["mat"])
+            for kk in ("e_pol", "h_pol"):
+                if kk in o:
+                    o[kk] = _rot_list(o[kk])
+            if "polarization" in o:
+                o["polarization"] = (o["polarization"] + 1) % 3
+            if "propagation_axis" in o:
+                o["propagation_axis"] = (o["propagation_axis"] + 1) % 3
+            if "periodic_axes" in o:
+                o["periodic_axes"] = sorted((a + 1) % 3 for a in o["periodic_axes"])
+            if "axis" in o:
+                o["axis"] = (o["axis"] + 1) % 3
+            if "axes" in o:
+                o["axes"] = sorted((a + 1) % 3 for a in o["axes"])
+            out.append(o)
+        if key in scene:
+            s[key] = out
+    return s
+
+
+def rotate_vector_field(F):
+    """(3, nx, ny, nz) vector field of the original scene expressed in the rotated labelling."""
+    import numpy as np
+
+    return np.transpose(np.asarray(F)[[2, 0, 1]], (0, 3, 1, 2))
+
+
+def rotate_scalar_field(F, lead=0):
+    """array with `lead` leading non-spatial axes and three trailing spatial axes"""
+    import numpy as np
+
+    F = np.asarray(F)
+    ax = list(range(lead)) + [lead + 2, lead + 0, lead + 1]
+    return np.transpose(F, ax)
